@@ -1,0 +1,285 @@
+//! Verification hooks for the other in-tree transports (`--cfg litep2p_verif` only).
+//!
+//! [`TransportHarness`] is [`crate::verif::tcp::TcpHarness`] for any transport implementing the
+//! crate-private [`Transport`] trait: a real transport built through [`TransportBuilder::new`]
+//! with the [`TransportHandle`](crate::transport::manager::TransportHandle) of a real
+//! [`TransportManager`] (kept alive, never polled), every trait method behind plain-data
+//! arguments/results, the event stream projected to plain data and a read-only projection of
+//! the bookkeeping maps. Kinds: `"tcp"`, `"ws"` (feature `websocket`), `"quic"` (feature `quic`).
+
+use crate::{
+    codec::ProtocolCodec,
+    crypto::ed25519::Keypair,
+    executor::DefaultExecutor,
+    protocol::{SubstreamKeepAlive, TransportService},
+    transport::{
+        manager::{SupportedTransport, TransportManager, TransportManagerBuilder},
+        tcp::TcpTransport,
+        Transport, TransportBuilder, TransportEvent,
+    },
+    types::{protocol::ProtocolName, ConnectionId},
+    verif::tcp::{Bookkeeping, TcpEvent, TcpSetup},
+    PeerId,
+};
+
+#[cfg(feature = "quic")]
+use crate::transport::quic::QuicTransport;
+#[cfg(feature = "websocket")]
+use crate::transport::websocket::WebSocketTransport;
+
+use futures::{future::BoxFuture, FutureExt, StreamExt};
+use hickory_resolver::{
+    config::{ResolverConfig, ResolverOpts, GOOGLE},
+    net::runtime::TokioRuntimeProvider,
+    TokioResolver,
+};
+use multiaddr::Multiaddr;
+
+use std::{sync::Arc, time::Duration};
+
+enum Inner {
+    Tcp(TcpTransport),
+    #[cfg(feature = "websocket")]
+    Ws(WebSocketTransport),
+    #[cfg(feature = "quic")]
+    Quic(QuicTransport),
+}
+
+macro_rules! with {
+    ($self:expr, $t:ident => $body:expr) => {
+        match &mut $self.transport {
+            Inner::Tcp($t) => $body,
+            #[cfg(feature = "websocket")]
+            Inner::Ws($t) => $body,
+            #[cfg(feature = "quic")]
+            Inner::Quic($t) => $body,
+        }
+    };
+}
+
+/// A real transport driven call by call.
+pub struct TransportHarness {
+    manager: TransportManager,
+    services: Vec<TransportService>,
+    transport: Inner,
+    listen: Vec<Multiaddr>,
+    local: PeerId,
+}
+
+fn err_text(error: impl std::fmt::Debug) -> String {
+    format!("{error:?}")
+}
+
+fn project(event: TransportEvent) -> TcpEvent {
+    match event {
+        TransportEvent::ConnectionEstablished { peer, endpoint } => TcpEvent::Established {
+            peer,
+            cid: endpoint.connection_id().verif_as_usize(),
+            listener: endpoint.is_listener(),
+            address: endpoint.address().clone(),
+        },
+        TransportEvent::ConnectionClosed { peer, connection_id } =>
+            TcpEvent::Closed { peer, cid: connection_id.verif_as_usize() },
+        TransportEvent::DialFailure { connection_id, address, error } => TcpEvent::DialFailure {
+            cid: connection_id.verif_as_usize(),
+            address,
+            error: err_text(error),
+        },
+        TransportEvent::ConnectionOpened { connection_id, address, errors } => TcpEvent::Opened {
+            cid: connection_id.verif_as_usize(),
+            address,
+            errors: errors.into_iter().map(|(a, e)| (a, err_text(e))).collect(),
+        },
+        TransportEvent::OpenFailure { connection_id, errors } => TcpEvent::OpenFailure {
+            cid: connection_id.verif_as_usize(),
+            errors: errors.into_iter().map(|(a, e)| (a, err_text(e))).collect(),
+        },
+        TransportEvent::PendingInboundConnection { connection_id } =>
+            TcpEvent::PendingInbound { cid: connection_id.verif_as_usize() },
+    }
+}
+
+impl TransportHarness {
+    /// Kinds compiled into this build.
+    pub fn kinds() -> Vec<&'static str> {
+        #[allow(unused_mut)]
+        let mut kinds = vec!["tcp"];
+        #[cfg(feature = "websocket")]
+        kinds.push("ws");
+        #[cfg(feature = "quic")]
+        kinds.push("quic");
+        kinds
+    }
+
+    /// Build the transport of `kind`. Must be called inside a tokio runtime. `setup.reuse_port`
+    /// and `setup.max_parallel_dials` do not apply to QUIC.
+    pub fn new(kind: &str, keypair: Keypair, setup: TcpSetup) -> Result<Self, String> {
+        let supported = match kind {
+            "tcp" => SupportedTransport::Tcp,
+            #[cfg(feature = "websocket")]
+            "ws" => SupportedTransport::WebSocket,
+            #[cfg(feature = "quic")]
+            "quic" => SupportedTransport::Quic,
+            other => return Err(format!("transport kind {other} not compiled in")),
+        };
+        let mut manager = TransportManagerBuilder::new()
+            .with_keypair(keypair)
+            .with_supported_transports([supported].into_iter().collect())
+            .build();
+        let services = (0..setup.protocols)
+            .map(|i| {
+                manager.register_protocol(
+                    ProtocolName::from(format!("/verif/transport/{i}")),
+                    Vec::new(),
+                    ProtocolCodec::UnsignedVarint(None),
+                    Duration::from_secs(3600),
+                    SubstreamKeepAlive::Yes,
+                )
+            })
+            .collect();
+        let handle = manager.transport_handle(Arc::new(DefaultExecutor));
+        let resolver = Arc::new(
+            TokioResolver::builder_with_config(
+                ResolverConfig::udp_and_tcp(&GOOGLE),
+                TokioRuntimeProvider::default(),
+            )
+            .with_options(ResolverOpts::default())
+            .build()
+            .map_err(err_text)?,
+        );
+        let (transport, listen) = match kind {
+            "tcp" => {
+                let config = crate::transport::tcp::config::Config {
+                    listen_addresses: setup.listen_addresses,
+                    reuse_port: setup.reuse_port,
+                    connection_open_timeout: setup.connection_open_timeout,
+                    substream_open_timeout: setup.substream_open_timeout,
+                    max_parallel_dials: setup.max_parallel_dials,
+                    ..Default::default()
+                };
+                let (t, l) = <TcpTransport as TransportBuilder>::new(handle, config, resolver)
+                    .map_err(err_text)?;
+                (Inner::Tcp(t), l)
+            }
+            #[cfg(feature = "websocket")]
+            "ws" => {
+                let config = crate::transport::websocket::config::Config {
+                    listen_addresses: setup.listen_addresses,
+                    reuse_port: setup.reuse_port,
+                    connection_open_timeout: setup.connection_open_timeout,
+                    substream_open_timeout: setup.substream_open_timeout,
+                    max_parallel_dials: setup.max_parallel_dials,
+                    ..Default::default()
+                };
+                let (t, l) = <WebSocketTransport as TransportBuilder>::new(handle, config, resolver)
+                    .map_err(err_text)?;
+                (Inner::Ws(t), l)
+            }
+            #[cfg(feature = "quic")]
+            "quic" => {
+                let config = crate::transport::quic::config::Config {
+                    listen_addresses: setup.listen_addresses,
+                    connection_open_timeout: setup.connection_open_timeout,
+                    substream_open_timeout: setup.substream_open_timeout,
+                };
+                let (t, l) = <QuicTransport as TransportBuilder>::new(handle, config, resolver)
+                    .map_err(err_text)?;
+                (Inner::Quic(t), l)
+            }
+            _ => unreachable!("kind checked above"),
+        };
+        let local = manager.verif_local_peer_id();
+        Ok(Self { manager, services, transport, listen, local })
+    }
+
+    /// Local peer id.
+    pub fn local_peer_id(&self) -> PeerId {
+        self.local
+    }
+
+    /// Addresses the transport listens on.
+    pub fn listen_addresses(&self) -> Vec<Multiaddr> {
+        self.listen.clone()
+    }
+
+    /// Allocate a connection id from the allocator the manager and the transport share.
+    pub fn next_connection_id(&self) -> usize {
+        self.manager.verif_next_connection_id().verif_as_usize()
+    }
+
+    /// `Transport::dial`.
+    pub fn dial(&mut self, cid: usize, address: Multiaddr) -> Result<(), String> {
+        with!(self, t => t.dial(ConnectionId::from(cid), address)).map_err(err_text)
+    }
+
+    /// `Transport::open`.
+    pub fn open(&mut self, cid: usize, addresses: Vec<Multiaddr>) -> Result<(), String> {
+        with!(self, t => t.open(ConnectionId::from(cid), addresses)).map_err(err_text)
+    }
+
+    /// `Transport::negotiate`.
+    pub fn negotiate(&mut self, cid: usize) -> Result<(), String> {
+        with!(self, t => t.negotiate(ConnectionId::from(cid))).map_err(err_text)
+    }
+
+    /// `Transport::cancel`.
+    pub fn cancel(&mut self, cid: usize) {
+        with!(self, t => t.cancel(ConnectionId::from(cid)))
+    }
+
+    /// `Transport::accept`; the returned future is the one the manager would await.
+    pub fn accept(&mut self, cid: usize) -> Result<BoxFuture<'static, Result<(), String>>, String> {
+        with!(self, t => t.accept(ConnectionId::from(cid)))
+            .map(|future| future.map(|result| result.map_err(err_text)).boxed())
+            .map_err(err_text)
+    }
+
+    /// `Transport::reject`.
+    pub fn reject(&mut self, cid: usize) -> Result<(), String> {
+        with!(self, t => t.reject(ConnectionId::from(cid))).map_err(err_text)
+    }
+
+    /// `Transport::accept_pending`.
+    pub fn accept_pending(&mut self, cid: usize) -> Result<(), String> {
+        with!(self, t => t.accept_pending(ConnectionId::from(cid))).map_err(err_text)
+    }
+
+    /// `Transport::reject_pending`.
+    pub fn reject_pending(&mut self, cid: usize) -> Result<(), String> {
+        with!(self, t => t.reject_pending(ConnectionId::from(cid))).map_err(err_text)
+    }
+
+    /// Next event of the transport's stream (suspends until there is one).
+    pub async fn next_event(&mut self) -> TcpEvent {
+        match with!(self, t => t.next().await) {
+            Some(event) => project(event),
+            None => TcpEvent::Terminated,
+        }
+    }
+
+    /// Read-only projection of the bookkeeping maps.
+    pub fn bookkeeping(&self) -> Bookkeeping {
+        match &self.transport {
+            Inner::Tcp(t) => t.verif_bookkeeping(),
+            #[cfg(feature = "websocket")]
+            Inner::Ws(t) => t.verif_bookkeeping(),
+            #[cfg(feature = "quic")]
+            Inner::Quic(t) => t.verif_bookkeeping(),
+        }
+    }
+
+    /// `(peer, connection id)` of closures reported by connection tasks to the (unpolled) manager;
+    /// also empties the inboxes of the dummy protocols so connection tasks never block on them.
+    pub fn drain_reports(&mut self) -> Vec<(PeerId, usize)> {
+        let waker = futures::task::noop_waker();
+        let mut cx = std::task::Context::from_waker(&waker);
+        for service in self.services.iter_mut() {
+            while let std::task::Poll::Ready(Some(_)) = service.poll_next_unpin(&mut cx) {}
+        }
+        let mut out = Vec::new();
+        while let Some(report) = self.manager.verif_try_recv_event() {
+            out.push(report);
+        }
+        out
+    }
+}
